@@ -1,10 +1,11 @@
 (* Dispatcher from property number to the correspondence entry point of its model. *)
 From Coq Require Import List ZArith.
-From GP Require Import Base.Val Base.GoStrings Model.Secure Model.Negotiate Model.Handshake Model.Stderr Model.Params.
+From GP Require Import Base.Val Base.GoStrings Model.Secure Model.Negotiate Model.Handshake Model.Stderr Model.Env Model.Params.
 
 Definition check_prop (p : Z) (inp obs : V) : verdict :=
   match p with
   | 13%Z => check_secure inp obs
+  | 17%Z => check_env gen_env_params inp obs
   | 10%Z => check_stderr gen_sd_params inp obs
   | 110%Z => check_stdout gen_sd_params inp obs
   | 1%Z => check_handshake gen_hs_params inp obs
